@@ -53,6 +53,15 @@ func setCtx(yylex yyLexer, expr ast.Expr, ctx ast.ExprContext) {
 	// assertion in their SetCtx methods
 	switch x := expr.(type) {
 	case *ast.Tuple:
+		if len(x.Elts) == 0 {
+			// the empty tuple is not a target (unlike the empty list)
+			action := "assign to"
+			if ctx == ast.Del {
+				action = "delete"
+			}
+			yylex.(*yyLex).SyntaxErrorf("can't %s ()", action)
+			return
+		}
 		x.Ctx = ctx
 		setCtxs(yylex, x.Elts, ctx)
 		return
